@@ -602,7 +602,25 @@ func rewriteGroups(s string) string {
 			inner := s[i+1 : j]
 			b.WriteByte(c)
 			if c == '(' {
-				parts := splitTop(inner, ',')
+				raw := splitTop(inner, ',')
+				// binder lists of quantifiers contain commas: "exists i int, j int :: P"
+				var parts []string
+				for k := 0; k < len(raw); k++ {
+					p := raw[k]
+					t := strings.TrimSpace(p)
+					if (strings.HasPrefix(t, "forall ") || strings.HasPrefix(t, "exists ")) && findTop(p, "::") < 0 {
+						for k+1 < len(raw) && findTop(p, "::") < 0 {
+							k++
+							p += "," + raw[k]
+						}
+						// everything after the "::" belongs to the quantifier too
+						for k+1 < len(raw) {
+							k++
+							p += "," + raw[k]
+						}
+					}
+					parts = append(parts, p)
+				}
 				for k, p := range parts {
 					if k > 0 {
 						b.WriteString(",")
